@@ -27,9 +27,9 @@ def parseField (s : String) : Option FieldDesc :=
 
 def parseMsg (s : String) : Option (Nat × MsgDesc) :=
   match s.splitOn "|" with
-  | [id, nm, dl, ir, rs, fs] => do
+  | [id, nm, dl, ir, rs, po, fs] => do
       let fields ← if fs == "-" then some [] else (fs.splitOn ";").mapM parseField
-      pure (← id.toNat?, ⟨nm, dl == "1", ir == "1", ← optNat rs, fields⟩)
+      pure (← id.toNat?, ⟨nm, dl == "1", ir == "1", ← optNat rs, po == "1", fields⟩)
   | _ => none
 
 def showOut : Out → String
